@@ -46,9 +46,17 @@ def text_layout(ctx):
         return [(st, seqobj(st, 'Enumerate', items))]
     summ = [(r'Titles::len$', s_titles_len), (r'Titles::to_list$', s_titles_to_list), (r'Context::to_list$', s_ctx_to_list), (r'Context::input$', lambda ex, st, f, a, t: [(st, slot(st, named(st, 'INPUT', 'Rc<JsonValue>')))]),
             (r'Print<.*>>::print$', s_print), (r'Print<.*>>::print_something$', s_print_something), (r'RefCell::<.*>::borrow_mut$', s_borrow_mut),
-            (r'String::new$', lambda ex, st, f, a, t: [(st, seqobj(st, 'String', ()))]), (r'as DerefMut>::deref_mut$| as Deref>::deref$', s_deref_slice),
+            (r'String::new$', lambda ex, st, f, a, t: [(st, seqobj(st, 'String', ()))]), (r'impl str>::is_empty$|String::is_empty$', lambda ex, st, f, a, t: [(st, BoolV(z3.BoolVal(len(model(st, a[0])) == 0)))]), (r'as DerefMut>::deref_mut$| as Deref>::deref$', s_deref_slice),
             (r'impl \[.*\]>::iter$|<&\[.*\] as IntoIterator>::into_iter$|<&Vec<.*> as IntoIterator>::into_iter$', s_iter_ref), (r'as IntoIterator>::into_iter$', s_identity), (r'as Iterator>::enumerate$', s_enumerate), (r'as Iterator>::next$', s_iter_next)] + base_summaries(calib, 'write_any')
-    ex = ctx.exec(summaries=summ, inline=[(r'TextProcess::print_list$', r'^output_style::<impl at [^>]*>::print_list$')], max_visits=4 * NMAX + 10)
+    # every inherent method of TextProcess found in the MIR is executed (a helper added by an edit is code of the stage, not an unknown callee)
+    pl = [n for n in ctx.fns if re.search(r'^output_style::<impl at [^>]*>::print_list$', n)]
+    helpers = []
+    if len(pl) == 1:
+        span = re.match(r'^(output_style::<impl at [^>]*>)::', pl[0]).group(1)
+        for n in ctx.fns:
+            if n.startswith(span + '::') and '{' not in n[len(span):]:
+                helpers.append((r'TextProcess::%s$' % re.escape(n[len(span) + 2:]), '^' + re.escape(n) + '$'))
+    ex = ctx.exec(summaries=summ, inline=helpers or [(r'TextProcess::print_list$', r'^output_style::<impl at [^>]*>::print_list$')], max_visits=4 * NMAX + 10)
     F_START = find_method(ctx, 'start', 'TextProcess'); F_PROC = find_method(ctx, 'process', 'TextProcess')
 
     def mkself(st, headers):
@@ -74,7 +82,7 @@ def text_layout(ctx):
                 run.paths += 1
                 if d.status == 'infeasible': continue
                 fam.obligations += 1; fam.witnesses += 1
-                hav = (d.havoc or [None])[0]
+                hav = next((h for h in d.havoc if 'write' in h.lower()), (d.havoc or [None])[0])
                 if d.status != 'returned':
                     fam.candidates.append(Candidate(fam.name, f'start-{d.status}', f'TextProcess::start N={n} headers={headers}: {d.status} {d.notes}', {'n': n, 'headers': headers}, unmodelled=hav)); continue
                 outs = [e for e in d.events if e[0] == 'out']; rd = ex.discr(d, obj(d, d.ret)).t
@@ -106,7 +114,7 @@ def text_layout(ctx):
                     run.paths += 1
                     if d.status == 'infeasible': continue
                     fam.obligations += 1; fam.witnesses += 1
-                    hav = (d.havoc or [None])[0]
+                    hav = next((h for h in d.havoc if 'write' in h.lower()), (d.havoc or [None])[0])
                     if d.status != 'returned':
                         fam.candidates.append(Candidate(fam.name, f'row-{d.status}', f'TextProcess::process N={n}: {d.status} {d.notes}', {'n': n}, unmodelled=hav)); continue
                     outs = [e for e in d.events if e[0] == 'out']; rd = ex.discr(d, obj(d, d.ret)).t
@@ -127,9 +135,17 @@ def text_layout(ctx):
                         fam.candidates.append(Candidate(fam.name, 'row-layout', f'TextProcess::process with {n} columns (present={pattern}): writes {got}, expected {exp}', {'n': n, 'what': 'row'}, unmodelled=hav))
     seen = set(); fam.candidates = [c for c in fam.candidates if not (c.role in seen or seen.add(c.role))]
     run.absorb(ex)
-    from .cli import run_jawk, show
+    from .cli import run_jawk, show, run_driver
     for c in fam.candidates:
         n = c.model.get('n', 2)
+        if c.unmodelled and 'write' in str(c.unmodelled).lower():
+            # the row reaches the writer through a call the scenario has no model for (io::Write::write may take fewer bytes than
+            # it is given): the same run against a writer that accepts one byte per call must give the same output
+            argv = ['-o', 'csv', '--select', '.a=a', '--select', '.b=b']; stdin = b'{"a":"x,y","b":[1,2]} {"a":null}'
+            r0 = run_driver(ctx, argv, stdin); r1 = run_driver(ctx, argv, stdin, env={'WRITE_CHUNK': '1'})
+            if r0['stdout'] != r1['stdout'] or r0['result'] != r1['result']:
+                c.replay = {'argv': argv, 'stdin': show(stdin), 'writer': 'accepts one byte per write call', 'expected_stdout': show(r0['stdout']), 'actual_stdout': show(r1['stdout']), 'result': r1['result']}
+                c.status = 'reproduced'; c.unmodelled = None; continue
         if c.role == 'no-columns-accepted':
             r = run_jawk(ctx, ['-o', 'csv'], b'{"a":1}')
             c.replay = {'argv': ['-o', 'csv'], 'rc': r['rc'], 'stdout': show(r['stdout'])}
